@@ -222,7 +222,18 @@ def decode_obs(obs):
     else:
         d["readall_nil"] = ("err", obs[pos])
         pos += 1
-    d["complete"] = pos == len(obs)
+    # raftServer.replayWAL on this state, ChainDB.HasWal for the queries
+    if obs[pos] == 1:
+        pos += 1
+        sidx, sterm, first, last, lastidx = obs[pos: pos + 5]
+        pos += 5
+        rhs = opt(3)
+        d["replay"] = {"snap": (sidx, sterm), "first": first, "last": last, "lastidx": lastidx, "hs": rhs, "ents": rents()}
+    else:
+        d["replay"] = obs[pos]          # 0: would not start, 2: panicked
+        pos += 1
+    d["haswal"] = obs[pos:]
+    d["complete"] = True
     return d
 
 
@@ -316,10 +327,34 @@ def gen_seq_cases(rng, quick):
                 reqs.append([0] + m)
             elif r < 0.9:
                 reqs.append([1] + member(rng.choice(pool)))
-            else:
+            elif r < 0.95:
                 reqs.append([rng.choice([2, 3])] + member(rng.choice(pool)))
+            else:
+                reqs.append([9, 0, 0, 0, 0])      # restart: snapshot data -> Cluster.Recover into the initial configuration
         cases.append({"kind": "seq", "applied": [member(i) for i in range(1, k + 1)], "reqs": reqs})
     return cases
+
+
+def gen_srv_cases(rng, quick):
+    eta, ts, prop = [], [], []
+    for applied in range(0, 7):
+        for first in range(1, applied + 3):
+            for ln in range(0, 6):
+                eta.append({"kind": "eta", "appliedidx": applied, "idxs": list(range(first, first + ln))})
+    for idx in range(0, 13):
+        for snap in range(0, idx + 1):
+            for freq in (0, 1, 3, 10):
+                for catchup in (0, 1, 5, 100):
+                    ts.append({"kind": "ts", "idx": idx, "snap": snap, "freq": freq, "catchup": catchup})
+    if quick:
+        ts = rng.sample(ts, 250)
+    for _ in range(120 if quick else 2000):
+        pops = []
+        for _ in range(rng.randrange(3, 12)):
+            k = rng.choice(["submit", "submit", "make", "after", "after", "take"])
+            pops.append([k] if k == "take" else [k, rng.randrange(1, 4)])
+        prop.append({"kind": "prop", "cap": rng.choice([0, 1, 1, 2]), "pops": pops})
+    return eta, ts, prop
 
 
 def coq_member(m):
@@ -392,11 +427,17 @@ def run(ctx):
         gens.append(g)
     for g in corpus:
         g.expect = None
-    wal_cases = [{"kind": "wal", "maxi": MAXI, "blocks": BLOCKS, "ccids": CCIDS, "ops": g.ops} for g in corpus + gens]
+    for g in corpus + gens:
+        idn = next((op for op in g.ops if op[0] == "ident"), None)
+        n0, p0 = (idn[3], idn[4]) if idn else (1, 1)
+        g.qs = [[n0, p0], [n0, p0 + 1], [n0 + 1, p0]]
+    wal_cases = [{"kind": "wal", "maxi": MAXI, "blocks": BLOCKS, "ccids": CCIDS, "ops": g.ops, "qs": g.qs} for g in corpus + gens]
     val_cases = gen_val_cases(rng, quick)
     en_cases = gen_en_cases(rng, quick)
     seq_cases = gen_seq_cases(rng, quick)
-    allc = wal_cases + val_cases + en_cases + seq_cases
+    eta_cases, ts_cases, prop_cases = gen_srv_cases(rng, quick)
+    srv_cases = eta_cases + ts_cases + prop_cases
+    allc = wal_cases + val_cases + en_cases + seq_cases + srv_cases
     fin = os.path.join(ctx.workdir, "c16.in")
     fout = os.path.join(ctx.workdir, "c16.out")
     with open(fin, "w") as f:
@@ -411,7 +452,10 @@ def run(ctx):
     wres = res[: len(wal_cases)]
     vres = res[len(wal_cases): len(wal_cases) + len(val_cases)]
     eres = res[len(wal_cases) + len(val_cases): len(wal_cases) + len(val_cases) + len(en_cases)]
-    sres = res[len(wal_cases) + len(val_cases) + len(en_cases):]
+    o1 = len(wal_cases) + len(val_cases) + len(en_cases)
+    sres = res[o1: o1 + len(seq_cases)]
+    xres = res[o1 + len(seq_cases):]
+    etares, tsres, propres = xres[: len(eta_cases)], xres[len(eta_cases): len(eta_cases) + len(ts_cases)], xres[len(eta_cases) + len(ts_cases):]
 
     pred_fail = []
     stale_inv = 0
@@ -439,6 +483,15 @@ def run(ctx):
             if (d["hs"], d["snap"], d["ident"]) != (hs, snap, ident):
                 pred_fail.append(("C16:roundtrip", "hard state / snapshot / identity not read back as written",
                                   {"ops": ops_so_far, "read": [d["hs"], d["snap"], d["ident"]], "written": [hs, snap, ident]}))
+                break
+            hw_bad = None
+            for q, code in zip(g.qs, d["haswal"]):
+                want = 0 if (ident is not None and hs is not None and (ident[2], ident[3]) == tuple(q)) else None
+                if (code == 0) != (want == 0):
+                    hw_bad = (q, code)
+            if hw_bad:
+                pred_fail.append(("C16:haswal", "HasWal accepts a WAL whose identity or hard state does not match (or refuses a matching one)",
+                                  {"ops": ops_so_far, "query_name_peer": hw_bad[0], "code": hw_bad[1], "identity": ident, "hardstate": hs}))
                 break
             for bi, b in enumerate(BLOCKS):
                 if d["inv"][bi] != inv.get(b):
@@ -481,6 +534,28 @@ def run(ctx):
                     pred_fail.append(("C16:readall", "ReadAll does not return the acknowledged log after the snapshot",
                                       {"ops": ops_so_far, "read": got, "expected": want}))
                     break
+                rp = d["replay"]
+                if rp == 2:
+                    pred_fail.append(("C16:replay", "replayWAL panics on a WAL that ReadAll accepts", {"ops": ops_so_far}))
+                    break
+                if isinstance(rp, dict):
+                    # the consensus library is restarted with exactly what ReadAll returned: the acknowledged log after
+                    # the snapshot, the stored hard state, a last index equal to the WAL's
+                    bad = None
+                    if rp["ents"] != got:
+                        bad = ("entries", rp["ents"], got)
+                    elif rp["hs"] != hs:
+                        bad = ("hard state", rp["hs"], hs)
+                    elif rp["snap"] != ((snap[0], snap[1]) if snap else (0, 0)):
+                        bad = ("snapshot", rp["snap"], snap)
+                    elif sidx <= last and (rp["last"] != last or rp["first"] != sidx + 1):
+                        bad = ("first/last index", (rp["first"], rp["last"]), (sidx + 1, last))
+                    elif got and rp["lastidx"] != got[-1][2]:
+                        bad = ("rs.lastIndex", rp["lastidx"], got[-1][2])
+                    if bad:
+                        pred_fail.append(("C16:replay", "replayWAL does not hand the acknowledged log to the consensus library: " + bad[0],
+                                          {"ops": ops_so_far, "got": bad[1], "expected": bad[2]}))
+                        break
     # ---- direct predicates on membership decisions
     for c, r in zip(val_cases, vres):
         if r["code"] == 0 and c["m"] is not None:
@@ -524,9 +599,42 @@ def run(ctx):
                                   {"case": c, "step": si, "obs": st}))
                 break
 
+    for c, r in zip(eta_cases, etares):
+        if r["obs"][0] == 1:
+            want = [i for i in c["idxs"] if i > c["appliedidx"]]
+            if r["obs"][1:] != want:
+                pred_fail.append(("C16:entries-to-apply", "entriesToApply does not return exactly the committed entries above appliedIndex",
+                                  {"case": c, "got": r["obs"][1:], "expected": want}))
+    for c, r in zip(ts_cases, tsres):
+        idx, snap, freq, cu = c["idx"], c["snap"], c["freq"], c["catchup"]
+        if r["obs"][0] == 1:
+            sidx, comp, newsnap = r["obs"][1], r["obs"][2], r["obs"][3]
+            want = idx - cu if idx > cu else 1
+            # the in-memory log was compacted to [snap] by the set-up; compaction only moves forward
+            ok = sidx == idx and idx - snap > freq and comp == max(want, snap) and (newsnap == idx if want > snap else newsnap == snap)
+            if cu <= freq and not (newsnap == idx and snap < comp <= idx):
+                ok = False
+            if not ok:
+                pred_fail.append(("C16:snapshot-index", "triggerSnapshot stores a snapshot / compacts at a wrong index", {"case": c, "obs": r}))
+        elif idx != 0 and idx - snap > freq:
+            pred_fail.append(("C16:snapshot-index", "triggerSnapshot takes no snapshot although more than snapFrequency entries were connected", {"case": c, "obs": r}))
+    for c, r in zip(prop_cases, propres):
+        saved = 0
+        for op, st in zip(c["pops"], r["steps"]):
+            if op[0] == "submit" and st["code"] == 0 and saved != 0:
+                pred_fail.append(("C16:two-proposals", "a second membership change was accepted while one is in flight", {"case": c, "steps": r["steps"]}))
+                break
+            if op[0] == "make" and saved != 0 and st["code"] == 0:
+                pred_fail.append(("C16:two-proposals", "makeProposal succeeds while a membership change is in flight", {"case": c, "steps": r["steps"]}))
+                break
+            if op[0] == "after" and saved != 0 and op[1] != saved and st["saved"] != saved:
+                pred_fail.append(("C16:proposal-slot", "the completion of another request freed the proposal slot", {"case": c, "steps": r["steps"]}))
+                break
+            saved = st["saved"]
+
     # ---- model / implementation correspondence
     corr_broken = None
-    hdr = ["From Coq Require Import ZArith NArith List Bool.", "From Verif Require Import RaftWal.Wal RaftWal.Membership.",
+    hdr = ["From Coq Require Import ZArith NArith List Bool.", "From Verif Require Import RaftWal.Wal RaftWal.Membership RaftWal.Server.",
            "Import ListNotations.", "Open Scope N_scope."]
 
     def num(x):
@@ -541,15 +649,17 @@ def run(ctx):
             for mo in mops[:-1]:
                 steps.append("(%s, [])" % mo)
             steps.append("(%s, [%s])" % (mops[-1], ";".join(num(x) for x in st["post"])))
-        items.append("(%d%%nat, [%s], [%s], [%s])" % (MAXI, ";".join(map(str, BLOCKS)), ";".join(map(str, CCIDS)), ";\n ".join(steps)))
+        items.append("(%d%%nat, [%s], [%s], [%s], [%s])" % (MAXI, ";".join(map(str, BLOCKS)), ";".join(map(str, CCIDS)),
+                                                             ";".join("(%d,%d)" % tuple(q) for q in g.qs), ";\n ".join(steps)))
     bad_w = []
     SH = 25
     from concurrent.futures import ThreadPoolExecutor
 
     def wal_shard(s):
         txt = hdr + [
-            "Definition skipping_check (t : wtrace) : nat :=",
-            "  let '(maxi, hashes, ccids, tr) := t in",
+            "Definition xtrace : Type := (nat * list N * list N * list (N * N) * list (wop * list N))%type.",
+            "Definition skipping_check (t : xtrace) : nat :=",
+            "  let '(maxi, hashes, ccids, qs, tr) := t in",
             "  (fix go (w : wal) (tr : list (wop * list N)) (i : nat) : nat :=",
             "     match tr with",
             "     | [] => O",
@@ -557,12 +667,12 @@ def run(ctx):
             "                        | None => S i",
             "                        | Some w' => match ob with",
             "                                     | [] => go w' tl i",
-            "                                     | _ => if Wal.list_eqbN (observe w' maxi hashes ccids) ob then go w' tl (S i) else S i",
+            "                                     | _ => if Wal.list_eqbN (observe w' maxi hashes ccids ++ observe_srv w' qs) ob then go w' tl (S i) else S i",
             "                                     end",
             "                        end",
             "     end) wal_empty tr O.",
-            "Definition traces : list wtrace := [%s]." % ";\n".join(items[s: s + SH]),
-            "Definition MW := Eval vm_compute in (fix f (l : list wtrace) (i : nat) : list (nat * nat) :=",
+            "Definition traces : list xtrace := [%s]." % ";\n".join(items[s: s + SH]),
+            "Definition MW := Eval vm_compute in (fix f (l : list xtrace) (i : nat) : list (nat * nat) :=",
             "   match l with [] => [] | t :: tl => match skipping_check t with O => f tl (S i) | S j => (i, j) :: f tl (S i) end end) traces O.",
             "Print MW."]
         rc, out = ctx.coq_eval("c16_wal_%d" % s, "\n".join(txt))
@@ -606,22 +716,46 @@ def run(ctx):
     for c, r in zip(seq_cases, sres):
         steps = []
         for rq, st in zip(c["reqs"], r["steps"]):
+            if rq[0] == 9:
+                steps.append("(SRestart, %d, [%s], [%s])" % (st["code"], ";".join(map(str, st["applied"])), ";".join(map(str, st["removed"]))))
+                continue
             con = "RAdd" if rq[0] == 0 else "RRemove"
             if rq[0] > 1:
                 continue        # other request types are covered by the validate family (model requests are add/remove)
-            steps.append("(%s (%s), %d, [%s], [%s])" % (con, coq_member(rq[1:]), st["code"], ";".join(map(str, st["applied"])),
-                                                       ";".join(map(str, st["removed"]))))
+            steps.append("(SReq (%s (%s)), %d, [%s], [%s])" % (con, coq_member(rq[1:]), st["code"], ";".join(map(str, st["applied"])),
+                                                              ";".join(map(str, st["removed"]))))
         sitems.append("([%s], [%s])" % (";".join(coq_member(a) for a in c["applied"]), ";\n ".join(steps)))
+    xitems_eta = ["(%d, [%s], [%s])" % (c["appliedidx"], ";".join(map(str, c["idxs"])), ";".join(map(str, r["obs"]))) for c, r in zip(eta_cases, etares)]
+    xitems_ts = ["(%d, %d, %d, %d, %d, [%s])" % (c["idx"], c["snap"], c["freq"], c["catchup"], c["snap"], ";".join(map(str, r["obs"]))) for c, r in zip(ts_cases, tsres)]
+    POP = {"submit": "PSubmit %d", "make": "PMake %d", "after": "PAfter %d"}
+    xitems_prop = ["(%d%%nat, [%s])" % (c["cap"], ";".join("(%s, %d, %d, %d)" % (("PTake" if op[0] == "take" else POP[op[0]] % op[1]), st["code"], st["saved"], st["chan"])
+                                                          for op, st in zip(c["pops"], r["steps"]))) for c, r in zip(prop_cases, propres)]
     bad_s = []
 
     def seq_shard(s):
-        txt = hdr + ["Definition scases : list scase := [%s]." % ";\n".join(sitems[s: s + 400]),
-                     "Definition MS := Eval vm_compute in mismatches_from scase_ok scases 0.", "Print MS."]
+        txt = hdr + ["Definition scases : list sscase := [%s]." % ";\n".join(sitems[s: s + 400]),
+                     "Definition MS := Eval vm_compute in mismatches_from sscase_ok scases 0.", "Print MS."]
+        if s == 0:
+            txt += ["Definition ecs : list (N * list N * list N) := [%s]." % ";\n".join(xitems_eta),
+                    "Definition MX1 := Eval vm_compute in mismatches_from eta_case_ok ecs 0.", "Print MX1.",
+                    "Definition tcs : list (N * N * N * N * N * list N) := [%s]." % ";\n".join(xitems_ts),
+                    "Definition MX2 := Eval vm_compute in mismatches_from ts_case_ok tcs 0.", "Print MX2.",
+                    "Definition pcs : list (nat * list (pop * N * N * N)) := [%s]." % ";\n".join(xitems_prop),
+                    "Definition MX3 := Eval vm_compute in mismatches_from pcase_ok pcs 0.", "Print MX3."]
         rc, out = ctx.coq_eval("c16_seq_%d" % s, "\n".join(txt))
         flat = " ".join(out.split())
         ms = re.search(r"MS = (\[.*?\]|nil)\s*:", flat)
         if rc != 0 or not ms:
             return None, ("membership sequence correspondence could not be evaluated", out[-2500:])
+        if s == 0:
+            for nm, fam, cs_, rs_ in (("MX1", "entriesToApply", eta_cases, etares), ("MX2", "triggerSnapshot", ts_cases, tsres),
+                                      ("MX3", "proposal slot", prop_cases, propres)):
+                mx = re.search(nm + r" = (\[.*?\]|nil)\s*:", flat)
+                if not mx:
+                    return None, (fam + " correspondence could not be evaluated", out[-2500:])
+                badx = [int(x) for x in re.findall(r"\d+", mx.group(1))]
+                if badx:
+                    return None, ("model/implementation differ on %d %s cases" % (len(badx), fam), [dict(case=cs_[i], impl=rs_[i]) for i in badx[:3]])
         return [s + int(x) for x in re.findall(r"\d+", ms.group(1))], None
 
     bad_v, bad_e = [], []
@@ -666,7 +800,7 @@ def run(ctx):
 
     # ---- evidence
     seq_steps = sum(len(c["reqs"]) for c in seq_cases)
-    ctx.cov["evaluations"] = steps_total + len(val_cases) + len(en_cases) + seq_steps
+    ctx.cov["evaluations"] = steps_total + len(val_cases) + len(en_cases) + seq_steps + len(srv_cases)
     ctx.cov["traces_validated_against_impl"] = len(wal_cases) + len(val_cases) + len(en_cases) + len(seq_cases)
     kinds = {}
     trunc = {"append": 0, "overwrite_shorter": 0, "overwrite_equal": 0, "overwrite_longer": 0, "ill_formed": 0}
@@ -707,6 +841,8 @@ def run(ctx):
                                      "validate_family": "applied = first k of 5 members (k=0..5) x removed in {[],[6],[7],[6,7]} x candidate id/name/"
                                                         "address/peer from {empty, duplicate of first, duplicate of last, removed id, fresh, invalid address} x "
                                                         "{add, remove, other}" + (" (1500 sampled)" if quick else " (complete)"),
+                                     "entries_to_apply_cases": len(eta_cases), "trigger_snapshot_cases": len(ts_cases), "proposal_slot_sequences": len(prop_cases),
+                                     "replay_runs": sum(1 for g, r in zip(corpus + gens, wres) for st in r["steps"] if not st.get("p") and isinstance(decode_obs(st["post"])["replay"], dict)),
                                      "request_sequences": len(seq_cases), "request_sequence_steps": seq_steps,
                                      "request_sequence_accepted": sum(1 for r in sres for st in r["steps"] if st["code"] == 0),
                                      "enable_cases": len(en_cases), "enable_result_codes": ecodes,
